@@ -68,19 +68,24 @@ size_t RequestParser::parse(const void *data_ptr, size_t data_size)
         if (sp_request_ == nullptr)
             sp_request_ = new Request;
 
+        /* 解析："GET /index.html HTTP/1.1\r\n" */
+        //! The start line can only be judged once it is complete. Until then (even if
+        //! only a part of the method has arrived, e.g. "GE") wait for more data.
+        auto end_pos = str.find(CRLF, pos);
+        if (end_pos == std::string::npos)   //! 如果没有找到首行 \r\n，则放弃
+            return 0;
+
         //! 获取 method
         auto method_str_end = str.find_first_of(' ', pos);
-        auto method_str = str.substr(pos, method_str_end);
+        if (method_str_end > end_pos)       //! no blank in the start line
+            method_str_end = end_pos;
+
+        auto method_str = str.substr(pos, method_str_end - pos);
         auto method = StringToMethod(method_str);
         if (method == Method::kUnset) {
             state_ = State::kFail;
             return pos;
         }
-
-        /* 解析："GET /index.html HTTP/1.1\r\n" */
-        auto end_pos = str.find(CRLF, method_str_end);
-        if (end_pos == std::string::npos)   //! 如果没有找到首行 \r\n，则放弃
-            return 0;
 
         sp_request_->method = method;
 
